@@ -132,6 +132,25 @@ def run(chk):
             csemx.check_compiled(chk, m, p.text, p, r, "c17", nstates, seed=stable_hash(p.text), level=level,
                                  sig_fn=lambda kind: "split-port-" + kind, extra={"feature": "atari2600", "defines": defs},
                                  compile_fn=lambda t, lv=level, d=defs: h.compile(t, lv, defines=d))
+    # ---- the deterministic idiom matrices (tools/matrix.py) with every variable in split-port memory: what the
+    #      optimiser remembers about registers must respect that a cell has two names there ----
+    import matrix, copy
+    for how, q, defs in (("superchip", "superchip", []), ("3E", "bank1", ["__3E__=1"])):
+        for p0 in matrix.all_programs(["triples", "switch", "folded"] if how == "superchip" else ["triples"]):
+            if re.search(r"\bs\d\b", p0.text):
+                continue                 # 16-bit split-port variables: the random programs cover them (one recorded finding)
+            p = copy.deepcopy(p0)
+            p.decls = [(ct, name, n, (q if name != "r" else qual)) for (ct, name, n, qual) in p.decls]
+            p.render()
+            for level in (0, 1):
+                r = h.compile(p.text, level, defines=defs)
+                if r["status"] != "ok":
+                    chk.count("matrix_" + r["status"]); break
+                chk.case(key=(p.text, level), nontrivial=True)
+                chk.count("matrix_" + how)
+                csemx.check_compiled(chk, m, p.text, p, r, "c17m", 1, seed=1, level=level,
+                                     sig_fn=lambda kind: "split-port-" + kind, extra={"feature": "atari2600", "defines": defs},
+                                     compile_fn=lambda t, lv=level, d=defs: h.compile(t, lv, defines=d))
     # the known finding's exemplar
     for k in chk.known:
         if k.get("exemplar"):
